@@ -104,7 +104,14 @@ fn lit(v: &Val) -> String {
 }
 
 fn tname(t: u8) -> String {
-    format!("t{t}")
+    // every third table has a name with 2-, 3- and 4-byte UTF-8 characters: its CREATE TABLE
+    // record in the manifest can be torn in the middle of a character
+    if t % 3 == 2 { format!("t{t}ä€𝄞") } else { format!("t{t}") }
+}
+
+/// the name as written in SQL
+fn qn(t: u8) -> String {
+    format!("\"{}\"", tname(t))
 }
 
 impl Rows {
@@ -135,17 +142,17 @@ fn cols_of(layout: u8) -> Vec<(String, String, bool)> {
 impl Stmt {
     fn sql(&self, m: &State) -> Option<String> {
         Some(match self {
-            Stmt::Create { t, layout } => format!("create table {} ({})", tname(*t), LAYOUTS[*layout as usize].0),
+            Stmt::Create { t, layout } => format!("create table {} ({})", qn(*t), LAYOUTS[*layout as usize].0),
             Stmt::Insert { t, rows } => {
                 let rows = rows.expand(layout_of(m, *t));
                 let body: Vec<String> =
                     rows.iter().map(|r| format!("({})", r.iter().map(lit).collect::<Vec<_>>().join(","))).collect();
-                format!("insert into {} values {}", tname(*t), body.join(","))
+                format!("insert into {} values {}", qn(*t), body.join(","))
             }
-            Stmt::InsertSelect { t, from } => format!("insert into {} select * from {}", tname(*t), tname(*from)),
-            Stmt::Delete { t, key: Some(k) } => format!("delete from {} where k = {k}", tname(*t)),
-            Stmt::Delete { t, key: None } => format!("delete from {} where true", tname(*t)),
-            Stmt::Drop { t } => format!("drop table {}", tname(*t)),
+            Stmt::InsertSelect { t, from } => format!("insert into {} select * from {}", qn(*t), qn(*from)),
+            Stmt::Delete { t, key: Some(k) } => format!("delete from {} where k = {k}", qn(*t)),
+            Stmt::Delete { t, key: None } => format!("delete from {} where true", qn(*t)),
+            Stmt::Drop { t } => format!("drop table {}", qn(*t)),
             Stmt::Tick => return None,
         })
     }
@@ -480,6 +487,10 @@ fn prefixes(path: &str, added: &[u8], fresh: bool, e: &Effort, all: bool, nested
     } else {
         v.extend([1, n / 2, n - 1]);
     }
+    if fam.starts_with("manifest") {
+        // in the middle of a multi-byte character (of a table name): the file is not valid UTF-8
+        v.extend((1..n).filter(|p| added[*p] & 0xc0 == 0x80).take(4));
+    }
     if fam == "manifest.append" || fam == "manifest.tmp.append" && e.col_prefixes > 1 {
         // between two records: a well-formed but unterminated (or half-applied) transaction
         v.extend(record_ends(added));
@@ -624,7 +635,7 @@ async fn read_state(db: &risinglight::Database) -> Result<State, String> {
         let mut cols: Vec<&Row> = attrs.iter().filter(|a| a[0] == t[1] && a[1] == t[3]).collect();
         cols.sort_by_key(|a| a[2].clone());
         let cols = cols.iter().map(|a| (s(&a[3]), s(&a[4]), a[5] == Val::Bool(true))).collect();
-        let rows = match exec(db, &format!("select * from {name}")).await {
+        let rows = match exec(db, &format!("select * from \"{name}\"")).await {
             Out::Rows(r) => sorted(r),
             o => return Err(format!("select * from {name}: {}", o.brief())),
         };
@@ -746,7 +757,7 @@ async fn probe(db: &risinglight::Database, start: &State, flaws: &mut Vec<Flaw>)
         if tab.cols.len() == 3 {
             row.push(Val::Str("p".into()));
         }
-        let sql = format!("insert into {name} values ({})", row.iter().map(lit).collect::<Vec<_>>().join(","));
+        let sql = format!("insert into \"{name}\" values ({})", row.iter().map(lit).collect::<Vec<_>>().join(","));
         match exec(db, &sql).await {
             Out::Rows(_) => {
                 let t = exp.get_mut(name).unwrap();
@@ -776,7 +787,7 @@ async fn probe(db: &risinglight::Database, start: &State, flaws: &mut Vec<Flaw>)
     for (i, (name, tab)) in mid.iter().enumerate() {
         // delete an old row if there is one (a delete vector on a recovered row-set)
         let key = tab.rows.first().map(|r| r[0].clone()).unwrap_or(Val::Int(900 + i as i64));
-        let sql = format!("delete from {name} where k = {}", lit(&key));
+        let sql = format!("delete from \"{name}\" where k = {}", lit(&key));
         let mut o = exec(db, &sql).await;
         if !o.is_ok() {
             flaws.push(flaw(format!("probe-delete-fails:{}", err_class(&o.brief())), format!("after recovery `{sql}` -> {}", o.brief())));
